@@ -17,7 +17,11 @@ from vfw.runner import CaseResult
 PROPERTY = 'C03'
 LEVEL = 'exploration'
 RULE = (
-    "Case = start state (10) x direction x local-file situation (none / file on disk / path without file) x progress "
+    "Case = start state (10) x direction x local-file situation (none / file on disk / path without file / path is a "
+    "directory so that os.remove really raises IsADirectoryError / file on disk whose removal raises PermissionError or "
+    "OSError(EBUSY), injected in the executor job; all 9^2 depth-2 sequences per start state are enumerated for each "
+    "failing situation, HEAD's behaviour pinned in the model: the failure is logged, local_path is forgotten, the abort "
+    "goes on) x progress "
     "situation (filesize in {unknown, 0, n} x bytes_transfered in {0, partial, == filesize, > filesize}, kept consistent "
     "with the start state; all 9^2 sequences of depth 2 are enumerated for each of the 12 situations) x initial "
     "time and queue fields, a list of operations from {queue, queue(remotely), pause, abort(reason), fail(reason), "
@@ -35,7 +39,10 @@ RULE = (
     "cancelled 0..8 iterations after it was started (while it waits for the lock, during task cancellation / file "
     "removal, or while the slow listener is being notified; enumerated for every legal first operation x every second "
     "operation x k in {1,2,3}). Three listeners are registered: the TransferManager, a recording listener that yields "
-    "k iterations, and a recording listener behind it. Oracle: the transfer lock is replaced by an observing subclass that snapshots "
+    "k iterations, and a recording listener behind it; optionally a fourth one in front of the recorders re-enters the "
+    "API for the same transfer from inside its callback (manager / transfer.state x queue / pause / abort, bounded by "
+    "asyncio.wait_for(0.5 s); enumerated for every legal first operation x 6 nested requests x every second "
+    "operation). Oracle: the transfer lock is replaced by an observing subclass that snapshots "
     "all transfer fields, the file and the tasks' cancel requests at every acquire/release; a sequential reference "
     "model (pinned graph pinned/transfer_graph.json plus the per-transition effects) is applied in lock-acquisition "
     "order; every notification (old,new) must be a pinned edge and chain; every result (True/False, "
@@ -44,8 +51,9 @@ RULE = (
     "which was no longer the transfer's state when it got the lock is reported under C03/stale-dispatch:* (one root "
     "cause) and ends the evaluation of that case. Non-trivial = schedule in which an operation waited for the lock "
     "or the state changed between call and lock acquisition, or a case containing a refused operation; distinct = "
-    "distinct case document. Cases with a cancelled caller: every (old,new) either listener saw is a pinned edge and is "
-    "a transition that was really made (state at lock acquisition -> state at release), no listener is told the same "
+    "distinct case document. Cases with a cancelled caller or a re-entrant listener (safety part only; a nested request that "
+    "times out on the non re-entrant lock is its outcome and has no effect): every (old,new) either listener saw is a pinned edge and is "
+    "a transition that was really made (every Transfer.transition call is recorded: state before -> state set), no listener is told the same "
     "transition more often than it was made, refusals are free of side effects (a listener that is skipped because "
     "the caller was cancelled mid-notification is not a violation); non-trivial if the cancellation hit a running "
     "operation."
@@ -66,11 +74,13 @@ ASSUMPTIONS = [
     "pinned edge and a transition really made, none is delivered twice, refusals without side effect), because a "
     "cancelled operation may legitimately be left half done (tasks cancelled or file removed without a transition) "
     "and the property does not promise that listeners behind the one being notified are still told",
-    "observation replaces Transfer._state_lock by a subclass of asyncio.Lock that only records, and the dummy tasks "
+    "observation wraps Transfer._state_lock in a proxy that delegates to the library's own lock object and only "
+    "records (the lock type is the library's), wraps the instance's transition() to record the transitions really "
+    "made, and the dummy tasks "
     "are asyncio.Task subclasses that only record cancel(); the virtual clock is advanced by 1 ms at every lock "
     "acquire/release so that time stamps set by different operations are distinguishable",
 ]
-BUDGET_S = {'quick': 120, 'thorough': 1500}
+BUDGET_S = {'quick': 240, 'thorough': 1800}
 
 _HERE = os.path.dirname(os.path.abspath(__file__))
 with open(os.path.join(os.path.dirname(_HERE), 'pinned', 'transfer_graph.json'), encoding='utf-8') as _fh:
@@ -86,6 +96,17 @@ IN_TASK_OPS = ('queue', 'queue_remotely', 'fail', 'complete', 'incomplete', 'ini
 EXEC_DELAYS = [0.0, 0.002, 0.5]
 TRANSFERRING = ('DOWNLOADING', 'UPLOADING')
 REASONS = [None, 'Requested', 'Blocked', 'File not shared', 'Cancelled', 'File not shared.', 'x']
+
+# local-file situations (case field 'file'): what a removal of the local file meets
+#   0 no local_path; 1 file on disk; 2 local_path without a file; 3 local_path is a directory (os.remove really raises
+#   IsADirectoryError); 4 / 5 file on disk but os.remove raises PermissionError / OSError(EBUSY) (injected in the
+#   executor job, the way a file in use or a read-only file system fails)
+FILE_SITUATIONS = 6
+FILE_ON_DISK = (1, 3, 4, 5)          # something exists at local_path
+FILE_REMOVABLE = (1,)
+# re-entrant listener (case field 're'): the nested request it issues from inside its notification callback
+REENTRANT_CALLS = [('queue', True), ('pause', True), ('abort', True), ('queue', False), ('pause', False), ('abort', False)]
+NESTED_TIMEOUT = 0.5
 
 # progress fields of the start state (case field 'prog' = index of filesize * 4 + index of bytes kind)
 FILESIZES = [None, 0, 1000]
@@ -145,7 +166,7 @@ def normalise(case):
         state = 'UPLOADING'
     elif state == 'UPLOADING' and download:
         state = 'DOWNLOADING'
-    file = _int(case.get('file', 0), 0, 10 ** 6) % 3
+    file = _int(case.get('file', 0), 0, 10 ** 6) % FILE_SITUATIONS
     if download and state == 'ABORTED':
         file = 0        # an aborted download has no local file any more
     started = bool(case.get('started', False))
@@ -181,6 +202,11 @@ def normalise(case):
     tasks = _int(case.get('tasks', 0), 0, 3)
     if intask is not None:
         tasks |= 1
+    # re-entrant listener: None, or index into REENTRANT_CALLS; 're_at' = on which of its notifications it re-enters
+    re_call = case.get('re')
+    if re_call is not None:
+        re_call = REENTRANT_CALLS[_int(re_call, 0, 10 ** 6) % len(REENTRANT_CALLS)]
+    re_at = _int(case.get('re_at', 0), 0, 3)
     # progress situation: absent -> the default of the start state; else index into FILESIZES x BYTES_KINDS
     prog = case.get('prog')
     if prog is not None:
@@ -188,7 +214,7 @@ def normalise(case):
     return types.SimpleNamespace(
         state=state, download=download, file=file, started=started, rq=bool(case.get('rq', False)), prog=prog,
         seq=bool(case.get('seq', True)), ops=ops, intask=intask, tasks=tasks,
-        has_cancel=any(op.cancel is not None for op in ops),
+        has_cancel=any(op.cancel is not None for op in ops), re=re_call, re_at=re_at,
         d=_int(case.get('d', 0), 0, 4), x=EXEC_DELAYS[_int(case.get('x', 0), 0, 10 ** 6) % len(EXEC_DELAYS)],
         ly=_int(case.get('ly', 0), 0, 3))
 
@@ -205,7 +231,7 @@ def initial_fields(c, path):
         'abort_reason': 'Requested' if s == 'ABORTED' else None,
         'remotely_queued': c.rq and s in ('QUEUED', 'INITIALIZING', 'INCOMPLETE', 'PAUSED'),
         'local_path': path if c.file else None,
-        'file': c.file == 1,
+        'file': c.file in FILE_ON_DISK,
         'filesize': None if s == 'VIRGIN' else 1000,
         'bytes_transfered': 0,
         'place_in_queue': None, 'queue_attempts': 0, 'last_queue_attempt': 0.0,
@@ -229,7 +255,7 @@ def initial_fields(c, path):
     return f
 
 
-def model_apply(m, aux, op, k, download):
+def model_apply(m, aux, op, k, download, removable=True):
     """Apply operation ``op`` (k-th in lock order) to model fields ``m``; returns the expected result
     'T' (done) / 'F' (refused) / 'C' (the issuing transfer task was cancelled before it got the lock)."""
     if op.in_task and aux['transfer_task'] != 'alive':
@@ -262,7 +288,10 @@ def model_apply(m, aux, op, k, download):
             if transferring:
                 set_complete_time()
             if download and m['local_path'] is not None:
-                m['file'] = False
+                # a removal that fails with OSError is logged and the abort carries on (state.py _remove_local_file):
+                # the path is forgotten, whatever is on disk stays
+                if removable:
+                    m['file'] = False
                 m['local_path'] = None
             m['abort_reason'] = 'Requested' if op.manager else op.reason
         elif name == 'pause':
@@ -331,23 +360,37 @@ class _LoggedTask(asyncio.Task):
         return super().cancel(msg)
 
 
-class _ObservedLock(asyncio.Lock):
-    """asyncio.Lock that reports successful acquisitions and releases (behaviour unchanged)."""
+class _ObservedLock:
+    """Observing proxy around the transfer's own lock object (whatever its type): reports successful acquisitions and
+    releases, delegates everything else; the library's lock keeps deciding who waits."""
 
-    def __init__(self, hook):
-        super().__init__()
+    def __init__(self, inner, hook):
+        self._inner = inner
         self._hook = hook
 
+    def locked(self):
+        return self._inner.locked()
+
     async def acquire(self):
-        waited = self.locked() or bool(self._waiters)
-        result = await super().acquire()
+        waited = self._inner.locked() or bool(getattr(self._inner, '_waiters', None))
+        result = await self._inner.acquire()
         self._hook('acq', waited)
         return result
 
     def release(self):
-        if self.locked():
+        if self._inner.locked():
             self._hook('rel', False)
-        super().release()
+        self._inner.release()
+
+    async def __aenter__(self):
+        await self.acquire()
+        return None
+
+    async def __aexit__(self, exc_type, exc, tb):
+        self.release()
+
+    def __getattr__(self, name):
+        return getattr(self._inner, name)
 
 
 _SETTINGS = []
@@ -383,8 +426,12 @@ def run_case(case) -> CaseResult:
         if own:
             shutil.rmtree(own, ignore_errors=True)
         elif tmpdir:
+            leftover = os.path.join(tmpdir, 'file.bin')
             try:
-                os.unlink(os.path.join(tmpdir, 'file.bin'))
+                if os.path.isdir(leftover):
+                    os.rmdir(leftover)
+                else:
+                    os.unlink(leftover)
             except OSError:
                 pass
     return res
@@ -400,9 +447,11 @@ def _run(c, res, tmpdir):
 
     path = os.path.join(tmpdir, 'file.bin') if tmpdir else None
     content = b'0123456789' * 40
-    if c.file == 1:
+    if c.file in (1, 4, 5):
         with open(path, 'wb') as fh:
             fh.write(content)
+    elif c.file == 3:
+        os.mkdir(path)
     init = initial_fields(c, path)
     ops = c.ops
     n = len(ops)
@@ -415,13 +464,30 @@ def _run(c, res, tmpdir):
     task_op = {}            # asyncio task -> index of the operation it is executing
     cancel_counts = {'transfer_task': 0, 'queue_task': 0}
     dummies = {}
-    holder = {'op': None}
+    holder = {'op': None, 'depth': 0}
+    truth = []              # (old, new) of every Transfer.transition() call, in order
+    nested = []             # outcomes of the re-entrant listener's nested requests
     ev = itertools.count(1)
     flags = {'second_cancel': False, 'unknown_acquirer': 0}
 
     async def main(loop):
         if c.x:
             loop.executor_delay = lambda: c.x
+        if c.file in (4, 5):
+            # the executor job that removes the local file fails like the OS does for a file in use
+            run_in_executor = loop.run_in_executor
+
+            def failing_remove(*a, **kw):
+                if c.file == 4:
+                    raise PermissionError(13, 'Permission denied', path)
+                raise OSError(16, 'Device or resource busy', path)
+
+            def faulty_run_in_executor(executor, func, *args):
+                if getattr(func, 'func', func) is os.remove:
+                    func = failing_remove
+                return run_in_executor(executor, func, *args)
+
+            loop.run_in_executor = faulty_run_in_executor
         vtime = tmodel.time.time
 
         def bump():
@@ -443,7 +509,8 @@ def _run(c, res, tmpdir):
                 'state': t.state.VALUE.name,
                 'fail_reason': t.fail_reason, 'abort_reason': t.abort_reason,
                 'remotely_queued': t.remotely_queued, 'local_path': t.local_path,
-                'file': bool(path) and os.path.exists(path) and os.path.getsize(path) == len(content),
+                'file': bool(path) and os.path.exists(path) and (
+                    os.path.isdir(path) or os.path.getsize(path) == len(content)),
                 'filesize': t.filesize, 'bytes_transfered': t.bytes_transfered,
                 'place_in_queue': t.place_in_queue, 'queue_attempts': t.queue_attempts,
                 'last_queue_attempt': t.last_queue_attempt,
@@ -458,6 +525,10 @@ def _run(c, res, tmpdir):
             now = bump()
             if what == 'acq':
                 i = task_op.get(asyncio.current_task())
+                if holder['depth'] and i is not None and i == holder['op']:
+                    holder['depth'] += 1
+                    return
+                holder['depth'] = 1
                 holder['op'] = i
                 if i is None:
                     flags['unknown_acquirer'] += 1
@@ -468,6 +539,10 @@ def _run(c, res, tmpdir):
                 r['before'] = snap()
                 r['window'] = [now, now]
             else:
+                if holder['depth'] > 1:
+                    holder['depth'] -= 1
+                    return
+                holder['depth'] = 0
                 i = holder['op']
                 holder['op'] = None
                 if i is None:
@@ -476,7 +551,16 @@ def _run(c, res, tmpdir):
                 r['after'] = snap()
                 r['window'][1] = now
 
-        t._state_lock = _ObservedLock(lock_hook)
+        t._state_lock = _ObservedLock(t._state_lock, lock_hook)
+
+        # the transitions really made, recorded where the state is set (observation only)
+        make_transition = t.transition
+
+        async def observed_transition(state):
+            truth.append((t.state.VALUE.name, state.VALUE.name))
+            return await make_transition(state)
+
+        t.transition = observed_transition
 
         class Recorder:
             """Second listener (behind the TransferManager): records, then is slow (yields c.ly iterations)."""
@@ -492,7 +576,44 @@ def _run(c, res, tmpdir):
             async def on_transfer_state_changed(self, transfer, old, new):
                 notes_last.append((old.name, new.name))
 
+        class Reenterer:
+            """Listener that issues a request for the same transfer from inside its notification callback, bounded
+            by wait_for (on a non re-entrant lock the nested request can only time out)."""
+            seen = 0
+
+            async def on_transfer_state_changed(self, transfer, old, new):
+                self.seen += 1
+                if self.seen != c.re_at + 1:
+                    return
+                name, via_manager = c.re
+                rec = {'call': ('manager.' if via_manager else 'state.') + name, 'at': (old.name, new.name),
+                       'before': snap(), 'notes_before': len(notes_last)}
+                nested.append(rec)
+                try:
+                    if via_manager:
+                        try:
+                            await asyncio.wait_for(getattr(manager, name)(t), NESTED_TIMEOUT)
+                            rec['result'] = 'T'
+                        except InvalidStateTransition:
+                            rec['result'] = 'F'
+                    else:
+                        coro = t.state.abort(reason='nested') if name == 'abort' else getattr(t.state, name)()
+                        value = await asyncio.wait_for(coro, NESTED_TIMEOUT)
+                        rec['result'] = 'T' if value is True else 'F' if value is False else 'X:returned=%r' % (value,)
+                except asyncio.TimeoutError:
+                    rec['result'] = 'TO'
+                except asyncio.CancelledError:
+                    rec['result'] = 'C'
+                    raise
+                except Exception as exc:       # noqa: BLE001
+                    rec['result'] = 'X:' + type(exc).__name__
+                finally:
+                    rec['after'] = snap()
+                    rec['notes_after'] = len(notes_last)
+
         await manager.add(t)
+        if c.re is not None:
+            t.state_listeners.append(Reenterer())
         t.state_listeners.append(Recorder())
         t.state_listeners.append(LastRecorder())
 
@@ -627,13 +748,13 @@ def _run(c, res, tmpdir):
         return final, dict(flags)
 
     (final, end_flags), loop_errors = simloop.run_case_on_loop(main, max_iterations=200_000)
-    _evaluate(c, res, init, recs, notes, notes_last, final, end_flags, loop_errors)
+    _evaluate(c, res, init, recs, notes, notes_last, final, end_flags, loop_errors, truth, nested)
 
 
 # ---------------------------------------------------------------------------
 # oracle
 
-def _evaluate(c, res, init, recs, notes, notes_last, final, flags, loop_errors):
+def _evaluate(c, res, init, recs, notes, notes_last, final, flags, loop_errors, truth, nested):
     ops = c.ops
     download = c.download
     n = len(ops)
@@ -712,7 +833,16 @@ def _evaluate(c, res, init, recs, notes, notes_last, final, flags, loop_errors):
             else:
                 res.label('cancelled:holding-lock-before-transition')
         res.nontrivial = res.nontrivial or any(r['result'] == 'C' for r in recs)
-        _evaluate_with_cancellation(c, res, recs, notes, notes_last, final, flags, loop_errors, history)
+    if c.re is not None:
+        res.label('re-entrant-listener')
+        for rec in nested:
+            res.label('nested-request:' + {'TO': 'timed-out', 'T': 'done', 'F': 'refused', 'C': 'cancelled'}.get(
+                rec.get('result', '?'), 'other'))
+        res.nontrivial = res.nontrivial or bool(nested)
+    if c.file in (3, 4, 5):
+        res.label('file-removal-fails:' + {3: 'IsADirectoryError', 4: 'PermissionError', 5: 'OSError'}[c.file])
+    if c.has_cancel or c.re is not None:
+        _evaluate_safety(c, res, recs, notes, notes_last, final, flags, loop_errors, history, truth, nested)
         return
     if [(a, b) for a, b, _ in notes] != notes_last:
         res.violate('C03/listeners-disagree',
@@ -800,7 +930,7 @@ def _evaluate(c, res, init, recs, notes, notes_last, final, flags, loop_errors):
                 return
 
         m_before = dict(m)
-        want = model_apply(m, aux, op, k, download)
+        want = model_apply(m, aux, op, k, download, removable=c.file in FILE_REMOVABLE)
 
         # (b) an operation that reports refusal has changed nothing (purely observational)
         if got == 'F' and before is not None and after is not None and (locked or c.seq):
@@ -854,18 +984,30 @@ def _evaluate(c, res, init, recs, notes, notes_last, final, flags, loop_errors):
                     f'{ {f: m[f] for f in bad} }; {history}')
 
 
-def _evaluate_with_cancellation(c, res, recs, notes, notes_last, final, flags, loop_errors, history):
+def _evaluate_safety(c, res, recs, notes, notes_last, final, flags, loop_errors, history, truth, nested):
     """Safety part only. A cancelled caller may leave an operation half done and may leave listeners behind the one
     being notified untold (the property promises neither): every (old,new) any listener saw is a pinned edge and a
     transition that was really made, no listener is told the same transition twice, refused operations changed
     nothing."""
     ops = c.ops
-    # the transitions really made: state at lock acquisition -> state at release, in acquisition order
-    truth = []
-    for r in sorted((r for r in recs if r['acq_ev'] is not None), key=lambda r: r['acq_ev']):
-        if r['after'] is not None and r['before']['state'] != r['after']['state']:
-            truth.append((r['before']['state'], r['after']['state']))
+    # ``truth``: the transitions really made = every Transfer.transition() call (state before -> state it sets)
     history = f'{history} listener-behind-slow-one={notes_last} transitions-made={truth}'
+    if nested:
+        history += ' nested-requests=' + str([(r['call'], 'during', r['at'], r.get('result')) for r in nested])
+    for rec in nested:
+        result = rec.get('result', 'N')
+        if result.startswith('X:') or result == 'N':
+            res.violate(f'C03/unexpected-exception:{result[2:] or "never-returned"}@nested-{rec["call"]}', history)
+        elif result == 'F' and 'after' in rec:
+            changed = [f for f in FIELDS if rec['before'][f] != rec['after'][f]]
+            if rec['notes_after'] != rec['notes_before']:
+                changed.append('notification')
+            if changed:
+                res.violate(f'C03/refused-side-effect:nested-{rec["call"]}@{rec["before"]["state"]}:'
+                            f'{",".join(changed)}',
+                            f'the nested {rec["call"]} reported refusal but changed '
+                            f'{ {f: (rec["before"].get(f), rec["after"].get(f)) for f in changed if f in rec["before"]} }'
+                            f'; {history}')
     for who, seen in (('slow-listener', [(a, b) for a, b, _ in notes]), ('listener-behind-slow-one', notes_last)):
         untold = list(truth)
         for pair in seen:
@@ -988,6 +1130,29 @@ def enum_cancelled(ks, gaps, lys, second=False):
                                             False, tasks=3, d=2, x=0, ly=ly)
 
 
+def enum_removal_failures(depth=2):
+    """All sequences of ``depth`` state operations on a download whose local file cannot be removed (the path is a
+    directory / os.remove raises PermissionError / OSError), per start state."""
+    for s in range(len(STATES)):
+        for file in (3, 4, 5):
+            for seq in itertools.product(range(len(OPS)), repeat=depth):
+                yield _base(s, 1, [_op(o, r=_reason(o, i)) for i, o in enumerate(seq)], True, file=file)
+
+
+def enum_reentrant(gaps=(1,)):
+    """A listener re-enters the API (manager / state x queue / pause / abort, bounded by wait_for) from inside the
+    notification of a first operation that is legal in the start state, followed by any second operation."""
+    for s in range(len(STATES)):
+        for direction in (0, 1):
+            for o1 in _accepted_ops(s, direction):
+                for re_call in range(len(REENTRANT_CALLS)):
+                    for o2 in range(len(OPS)):
+                        for g in gaps:
+                            yield _base(s, direction,
+                                        [_op(o1, r=_reason(o1, 0)), _op(o2, r=_reason(o2, 1), g=g)],
+                                        False, tasks=0, d=0, re=re_call, re_at=0)
+
+
 def enum_pairs_in_task(gaps, configs):
     """Pairs in which one operation is issued by the transfer task itself (before or after the other)."""
     in_task = [OPS.index(nm) for nm in IN_TASK_OPS]
@@ -1022,7 +1187,12 @@ def history_strategy(draw):
     for _ in range(nops):
         o = draw(st.integers(0, len(OPS) - 1))
         ops.append(_op(o, m=draw(st.booleans()), r=draw(st.sampled_from(REASONS))))
-    return {'state': s, 'dir': direction, 'file': draw(st.sampled_from([0, 1, 1, 2])), 'started': draw(st.booleans()),
+    extra = {}
+    if draw(st.integers(0, 5)) == 0:
+        extra = {'re': draw(st.integers(0, len(REENTRANT_CALLS) - 1)), 're_at': draw(st.integers(0, 2))}
+    return {**extra,
+            'state': s, 'dir': direction, 'file': draw(st.sampled_from([0, 1, 1, 2, 3, 4, 5])),
+            'started': draw(st.booleans()),
             'prog': draw(st.sampled_from([None] + _ALL_PROGS)),
             'rq': draw(st.booleans()), 'seq': True, 'ops': ops, 'tasks': draw(st.integers(0, 3)),
             'd': draw(st.integers(0, 2)), 'x': draw(st.sampled_from([0, 0, 1])), 'ly': draw(st.sampled_from([0, 0, 1]))}
@@ -1048,7 +1218,11 @@ def schedule_strategy(draw):
         victim = min(draw(st.sampled_from([0, 0, 0, 1, 1, 2])), nops - 1)
         ops[victim]['c'] = draw(st.integers(0, 8))
         ops[victim]['t'] = False
-    return {'state': s, 'dir': direction, 'file': draw(st.sampled_from([0, 1, 1, 1, 2])),
+    extra = {}
+    if draw(st.integers(0, 3)) == 0:
+        extra = {'re': draw(st.integers(0, len(REENTRANT_CALLS) - 1)), 're_at': draw(st.integers(0, 2))}
+    return {**extra,
+            'state': s, 'dir': direction, 'file': draw(st.sampled_from([0, 1, 1, 1, 2, 3, 4, 5])),
             'started': draw(st.booleans()), 'rq': draw(st.booleans()), 'seq': False, 'ops': ops,
             'prog': draw(st.sampled_from([None] + _ALL_PROGS)),
             'tasks': draw(st.sampled_from([0, 1, 2, 3, 3])), 'd': draw(st.integers(0, 4)),
@@ -1082,6 +1256,8 @@ def _run_shard(ctx):
     ctx.enumerate(enum_histories_manager_depth2())
     if quick:
         ctx.enumerate(enum_histories_progress(2, _ALL_PROGS))
+        ctx.enumerate(enum_removal_failures(2))
+        ctx.enumerate(enum_reentrant())
         ctx.enumerate(enum_cancelled([1, 2, 3], [0, 1], [3]))
         ctx.enumerate(enum_cancelled([1, 3], [1], [3], second=True))
         ctx.enumerate(enum_pairs([1], _SLOW_FIXED, state_entries))
@@ -1092,6 +1268,8 @@ def _run_shard(ctx):
     else:
         ctx.enumerate(enum_histories_progress(2, _ALL_PROGS))
         ctx.enumerate(enum_histories_progress(3, _MAIN_PROGS))
+        ctx.enumerate(enum_removal_failures(3))
+        ctx.enumerate(enum_reentrant((0, 1, 3)))
         ctx.enumerate(enum_cancelled([0, 1, 2, 3, 4, 5, 6], [0, 1, 2, 4], [1, 2, 3]))
         ctx.enumerate(enum_cancelled([0, 1, 2, 3, 5], [0, 1, 3], [0, 2, 3], second=True))
         ctx.enumerate(enum_pairs([0, 1, 2, 3, 5], _SLOW_MORE, _ENTRY))
